@@ -4,13 +4,15 @@ import (
 	"go/ast"
 	"go/types"
 	"strings"
+
+	"golang.org/x/tools/go/ssa"
 )
 
 func init() {
 	register("C14", PropertyMeta{
 		Technique: "decision-table extraction over (len, cap) orderings for every Buffer method + escape audit of the backing slice",
 		Explanation: "Decides on queueing/buffer.go: CanPush is len<cap; PushTyped panics without storing iff len>=cap and otherwise appends its argument at the back; Pop/Peek return the zero value on an empty buffer and element 0 otherwise, Pop re-slicing from 1 after reading the head; " +
-			"UpdateFront is a no-op when empty and stores at index 0 otherwise; Restore rejects more elements than the capacity and copies its input; Clear empties; Size/Capacity read len/cap; no method hands out the backing slice itself.",
+			"UpdateFront is a no-op when empty and stores at index 0 otherwise; Restore rejects more elements than the capacity and copies its input; Clear empties; Size/Capacity read len/cap; no method hands out the backing slice itself nor any slice sharing its storage (a re-slice, or an append onto a slice of it with non-zero capacity — value-level over SSA).",
 		NotDecided:  "JSON round-trip symmetry (decided under C08); the property as a trace equivalence with a reference FIFO.",
 		Assumptions: []string{"Go slice semantics for append and re-slicing"},
 	}, runC14)
@@ -216,6 +218,19 @@ func runC14(c *Ctx) {
 				}
 				return true
 			})
+			// value level: no returned slice shares the backing array (a slice of it,
+			// or an append onto a non-empty-capacity slice of it)
+			if fn := p.SSAFunc(m); fn != nil && bad == "" {
+				for _, b := range fn.Blocks {
+					if ret, isRet := b.Instrs[len(b.Instrs)-1].(*ssa.Return); isRet {
+						for _, rv := range ret.Results {
+							if _, isSl := rv.Type().Underlying().(*types.Slice); isSl && sharesBacking(rv, elF, map[ssa.Value]bool{}) {
+								bad = "returns a slice that shares the buffer's backing array (a slice of, or an append onto, the element storage): writes through the result, or later in-place updates of the buffer, show through"
+							}
+						}
+					}
+				}
+			}
 			c.Check(bad == "", "buffer-escape", "queueing.Buffer."+m.Name(), fd.Pos(), "does not hand out the backing slice", bad)
 		}
 		_ = n
@@ -477,4 +492,39 @@ func portHelper(p *Program) func(*types.Func) bool {
 		}
 		return p.Decl(g) != nil
 	}
+}
+
+// sharesBacking: v may be a slice over the storage of field fld: a load of the
+// field, a slice of such a value (except a zero-capacity one), an append whose
+// first operand shares (append writes in place while capacity lasts), or a phi of
+// such values.
+func sharesBacking(v ssa.Value, fld types.Object, seen map[ssa.Value]bool) bool {
+	if v == nil || seen[v] {
+		return false
+	}
+	seen[v] = true
+	switch x := v.(type) {
+	case *ssa.UnOp:
+		if f := FieldOf(x.X); f != nil && sameObj(f, fld) {
+			return true
+		}
+	case *ssa.Slice:
+		if x.Max != nil && constIs(x.Max, "0") {
+			return false
+		}
+		return sharesBacking(x.X, fld, seen)
+	case *ssa.Phi:
+		for _, e := range x.Edges {
+			if sharesBacking(e, fld, seen) {
+				return true
+			}
+		}
+	case *ssa.Call:
+		if bi, isB := x.Common().Value.(*ssa.Builtin); isB && bi.Name() == "append" && len(x.Common().Args) > 0 {
+			return sharesBacking(x.Common().Args[0], fld, seen)
+		}
+	case *ssa.ChangeType:
+		return sharesBacking(x.X, fld, seen)
+	}
+	return false
 }
